@@ -352,17 +352,26 @@ func (w *World) loopFrame(blocks map[*ssa.BasicBlock]bool, fn *ssa.Function) (pl
 		}
 		for _, ins := range b.Instrs {
 			for _, ev := range w.instrWrites(ins, fn) {
-				switch ev.root.kind {
-				case rootOther:
+				if ev.arg == nil {
+					if ev.root.kind == rootOther {
+						plain[ev.key] = true
+					}
+					continue
+				}
+				outs, other := loopRoots(ev.arg, blocks, map[ssa.Value]bool{})
+				if other {
 					plain[ev.key] = true
-				case rootParam:
-					except[ev.key] = append(except[ev.key], fn.Params[ev.root.param])
-				case rootFresh:
-					for _, st := range ev.root.sites {
-						if si, ok := st.(ssa.Instruction); ok && blocks[si.Block()] {
-							continue // allocated inside the loop body
+					continue
+				}
+				for _, o := range outs {
+					dup := false
+					for _, q := range except[ev.key] {
+						if q == o {
+							dup = true
 						}
-						except[ev.key] = append(except[ev.key], st)
+					}
+					if !dup {
+						except[ev.key] = append(except[ev.key], o)
 					}
 				}
 			}
@@ -371,6 +380,70 @@ func (w *World) loopFrame(blocks map[*ssa.BasicBlock]bool, fn *ssa.Function) (pl
 	return
 }
 
+// loopRoots: the values defined OUTSIDE the loop (blocks) whose allocation a write through v inside the loop may hit.
+// The derivation of v is followed through the loop body only (address arithmetic, slicing, append, phis); memory
+// allocated inside the body did not exist at loop entry and contributes nothing; a pointer loaded from memory or
+// returned by a call inside the body is `other` (no frame).
+func loopRoots(v ssa.Value, blocks map[*ssa.BasicBlock]bool, visiting map[ssa.Value]bool) (outs []ssa.Value, other bool) {
+	if visiting[v] {
+		return nil, false
+	}
+	switch v.(type) {
+	case *ssa.Const:
+		return nil, false
+	case *ssa.Parameter, *ssa.FreeVar, *ssa.Global:
+		return []ssa.Value{v}, false
+	}
+	ins, isIns := v.(ssa.Instruction)
+	if !isIns {
+		return nil, true
+	}
+	if !blocks[ins.Block()] {
+		switch v.Type().Underlying().(type) {
+		case *types.Pointer, *types.Slice:
+			return []ssa.Value{v}, false
+		}
+		return nil, true
+	}
+	visiting[v] = true
+	defer delete(visiting, v)
+	switch x := v.(type) {
+	case *ssa.Alloc, *ssa.MakeSlice, *ssa.MakeMap, *ssa.MakeClosure, *ssa.MakeInterface, *ssa.MakeChan:
+		return nil, false
+	case *ssa.FieldAddr:
+		return loopRoots(x.X, blocks, visiting)
+	case *ssa.IndexAddr:
+		return loopRoots(x.X, blocks, visiting)
+	case *ssa.Slice:
+		return loopRoots(x.X, blocks, visiting)
+	case *ssa.ChangeType:
+		return loopRoots(x.X, blocks, visiting)
+	case *ssa.Convert:
+		if b, isB := under(x.X.Type()).(*types.Basic); isB && b.Info()&types.IsString != 0 {
+			return nil, false
+		}
+		return loopRoots(x.X, blocks, visiting)
+	case *ssa.Phi:
+		for _, e := range x.Edges {
+			o, ot := loopRoots(e, blocks, visiting)
+			if ot {
+				return nil, true
+			}
+			outs = append(outs, o...)
+		}
+		return outs, false
+	case *ssa.Call:
+		if c := x.Call.StaticCallee(); c != nil && strings.HasPrefix(c.String(), "(*math/big.Int).") && len(x.Call.Args) > 0 {
+			if _, isPtr := under(x.Type()).(*types.Pointer); isPtr {
+				return loopRoots(x.Call.Args[0], blocks, visiting)
+			}
+		}
+		if b, ok := x.Call.Value.(*ssa.Builtin); ok && b.Name() == "append" {
+			return loopRoots(x.Call.Args[0], blocks, visiting)
+		}
+	}
+	return nil, true
+}
 
 // ghostPlain: ghost keys that are always forgotten wholesale (no frame reasoning); $big takes part in the frame analysis.
 func ghostPlain(k string) bool { return strings.HasPrefix(k, "$") && k != "$big" }
